@@ -273,6 +273,41 @@ def v_three_ion_types(items):
 
 # ---------------------------------------------------------------- builder
 
+def v_icode(items, which):
+    """Give one residue the number of its predecessor plus insertion code
+    'A' (25, 26 -> 25, 25A)."""
+    res = [r for r in P.residues(items) if r[0][3] in PROTEIN_RES]
+    if len(res) < 3:
+        return None
+    k = 1 + which % (len(res) - 1)
+    prev, cur = res[k - 1], res[k]
+    if prev[0][0] != cur[0][0]:
+        return None
+    out = list(items)
+    for i in cur[1]:
+        r = out[i][1].with_resnum(int(prev[0][1]))
+        r._put(26, 27, 'A')
+        out[i] = ('A', r)
+    return out
+
+
+def v_negative_numbers(items):
+    """Shift the residue numbers of the first chain so that they start at -3."""
+    atoms = [it for k, it in items if k == 'A' and it.tag == 'ATOM  ']
+    if not atoms:
+        return None
+    ch = atoms[0].chain
+    lo = min(int(a.resnum) for a in atoms if a.chain == ch)
+    shift = -3 - lo
+    return [('A', it.with_resnum(int(it.resnum) + shift))
+            if k == 'A' and it.chain == ch and it.tag == 'ATOM  ' and -999 < int(it.resnum) + shift < 9999
+            else (k, it) for k, it in items]
+
+
+def v_blank_chain(items):
+    return [('A', it.with_chain(' ')) if k == 'A' else (k, it) for k, it in items]
+
+
 def v_drop_oxt(items):
     return [x for x in items if not (x[0] == 'A' and x[1].name.strip() == 'OXT')]
 
@@ -287,6 +322,21 @@ def _mk(fam, tag, items, inputs, extra_tags=()):
         # DOS line endings: a path is read with universal newlines, a
         # StringIO hands the '\r' through to the parser
         text = text.replace('\n', '\r\n')
+    elif tag == 'h36':
+        # hybrid-36 atom serial numbers (A0000, A0001, ...) as used beyond 99999 atoms
+        lines = []
+        n = 0
+        for line in text.splitlines(True):
+            if line[0:6] in P.ATOM_TAGS:
+                d = '0123456789ABCDEFGHIJKLMNOPQRSTUVWXYZ'
+                v, sfx = n, ''
+                for _ in range(4):
+                    sfx = d[v % 36] + sfx
+                    v //= 36
+                line = line[:6] + 'A' + sfx + line[11:]
+                n += 1
+            lines.append(line)
+        text = ''.join(lines)
     elif tag == 'bom':
         # UTF-8 byte-order mark as prepended by some editors: whatever the
         # parser makes of it, every delivery route must make the same
@@ -323,6 +373,10 @@ def _family(fam, base, inputs, nvar, salt):
         ('cbt', lambda: v_drop_oxt(base)),
         ('ion3', lambda: v_three_ion_types(base)),
         ('bom', lambda: list(base)),
+        ('icode', lambda: v_icode(base, salt + 3)),
+        ('neg', lambda: v_negative_numbers(base)),
+        ('blank', lambda: v_blank_chain(base)),
+        ('h36', lambda: list(base)),
     ]
     for j in range(nvar):
         tag, fn = makers[(salt + j * 3) % len(makers)]
@@ -468,6 +522,12 @@ def build_params(repo):
         ('bbhb', ['backbone_NH_hydrogen_bond HIS -0.40 2.00 3.00', 'exclude_sidechain_interactions TYR',
                   'COO_HIS_exception 1.20', 'coulomb_diel 60.0'], 'other hydrogen-bond tables'),
     ]
+    for pid, old, new, note in (
+            ('sybyl', 'ligand_typing groups', 'ligand_typing sybyl', 'ligand typing by sybyl types only'),
+            ('vbad', 'version VersionA', 'version SimpleHB',
+             'a version class that fails part-way on this tree: a naturally aborted call')):
+        if old in base:
+            params.append({'id': pid, 'text': base.replace(old, new, 1), 'note': note})
     for pid, lines, note in additions:
         use = [ln for ln in lines if ln.split()[0] in declared]
         if use:
